@@ -257,7 +257,9 @@ type c06Spec struct {
 	// rewrite them under the signature check that follows)
 	LockHead []byte
 	// BigOut: the spending transaction additionally carries a data output of this many non-repeating bytes
-	BigOut         int
+	BigOut int
+	// ZeroSats: the spent output is worth nothing (while the input may record another amount from before)
+	ZeroSats       bool
 	UnlockCheck    bool
 	UnlockCheckHT  byte
 	UnlockCheckPad int
@@ -318,6 +320,9 @@ func breakDER(r *prng.R, der []byte) []byte {
 func c06Make(r *prng.R, sp *c06Spec) *c06Case {
 	nk := sp.N + 3
 	cs := &c06Case{Flags: sp.Flags, Sats: uint64(1 + r.Intn(1_000_000))}
+	if sp.ZeroSats {
+		cs.Sats = 0
+	}
 	var privs []*bec.PrivateKey
 	var pubs []*bec.PublicKey
 	for i := 0; i < nk; i++ {
@@ -683,7 +688,9 @@ func init() {
 									if scriptflag.Flag(fl)&scriptflag.UTXOAfterGenesis != 0 && r.Chance(1, 4) {
 										sp.LockTail = prng.Pick(r, [][]byte{{0x6a}, {0x6a, 0x42}, {0x6a, 0x01}, {0x6a, 0x01, 0x42}, {0x6a, 0xac, 0x4c}, {0x6a, 0x05, 0x01, 0x02}, {0x6a, 0x51, 0x52, 0x53, 0x54},
 											{0x6a, 0xab}, {0x6a, 0xab, 0x01, 0x02}, {0x6a, 0x01, 0xab, 0xab}, {0x6a, 0x51, 0xab, 0x52},
-											{0x6a, 0xab, 0x05, 0x01}, {0x6a, 0x05, 0x01, 0xab}, {0x6a, 0xab, 0xab, 0x4c}, {0x6a, 0x4c, 0x02, 0xab, 0xab, 0xab}, {0x6a, 0x4d, 0x01, 0x00, 0xab, 0xab, 0x4e, 0xab}})
+											{0x6a, 0xab, 0x05, 0x01}, {0x6a, 0x05, 0x01, 0xab}, {0x6a, 0xab, 0xab, 0x4c}, {0x6a, 0x4c, 0x02, 0xab, 0xab, 0xab}, {0x6a, 0x4d, 0x01, 0x00, 0xab, 0xab, 0x4e, 0xab},
+											// pushes on both sides of the direct-push / PUSHDATA1 boundary whose data is full of 0xab
+											append([]byte{0x6a, 74}, bytes.Repeat([]byte{0xab}, 74)...), append(append([]byte{0x6a, 75}, bytes.Repeat([]byte{0xab}, 75)...), 0xab, 0x51), append([]byte{0x6a, 0x4c, 76}, bytes.Repeat([]byte{0xab}, 76)...)})
 									}
 									if sp.LockTail == nil && k%3 == 1 { // data pushes in a wider form than necessary behind the check: the script code is hashed as it is written
 										sp.LockTail = [][]byte{{0x4c, 0x01, 0x07, 0x75}, {0x4d, 0x02, 0x00, 0xaa, 0xbb, 0x75}, {0x4e, 0x01, 0x00, 0x00, 0x00, 0x09, 0x75}, {0x4c, 0x00, 0x75}, {0x01, 0x05, 0x75}, {0x4c, 0x03, 0x01, 0x02, 0x03, 0x4d, 0x01, 0x00, 0x51, 0x6d}}[(k/3+sepPos+7)%6]
